@@ -2,17 +2,23 @@
 From Scnr Require Import Base Regex Automaton FindFrom Spec SpecRun Iter IterRun Nfa Compile CompileProofs
      SpecProofs ExtProofs EndToEnd.
 
+(* every automaton the pipeline produces lists all its accepting token types in terminal_ids *)
+Theorem C01_built_mode_ok : forall m cm, build_mode m = Some cm -> mode_ok (aut cm).
+Proof. exact build_mode_ok. Qed.
+Print Assumptions C01_built_mode_ok.
+
 (* ONE MODE. A mode built from source patterns by the model of the implementation's pipeline
    (Nfa::try_from_ast, MultiPatternNfa, From<MultiPatternNfa> for CompiledDfa, Minimizer::minimize;
    lookaheads by Nfa::try_from_ast, From<Nfa>, minimize) finds, at every position of every
    haystack, exactly the token the executable specification selects from the patterns' regular
    expressions: maximal extent (match end + lookahead length), then the pattern listed first,
    then the shortest match end. Conditions: distinct token types in the mode (D8), no empty
-   alternation, automaton sizes below 2^32 (StateGroupIDBase), and the boolean check that every
-   accepting token type is listed in terminal_ids (evaluated on each compiled scanner). *)
+   alternation, automaton sizes below 2^32 (StateGroupIDBase). That every accepting token type is
+   listed in terminal_ids (so that priority_of never unwraps None) is proved for every built mode
+   (build_mode_ok), not assumed. *)
 Theorem C01_compiled_mode_finds_specified_token :
   forall (tbl:N -> N -> bool) (m:src_mode) (cm:cmode) (sm:smode),
-  build_mode m = Some cm -> spec_mode m = Some sm -> mode_valid m -> mode_okb (aut cm) = true ->
+  build_mode m = Some cm -> spec_mode m = Some sm -> mode_valid m ->
   forall s, find_mode tbl (aut cm) s = Ok (best_cand tbl (sm_pats sm) s).
 Proof. exact compiled_find_is_specification. Qed.
 Print Assumptions C01_compiled_mode_finds_specified_token.
@@ -23,7 +29,7 @@ Print Assumptions C01_compiled_mode_finds_specified_token.
 Theorem C01_compiled_scanner_is_specification :
   forall (tbl:N -> N -> bool) (l:list src_mode) (cms:list cmode) (sms:list smode),
   build_scanner l = Some cms -> spec_of_scanner l = Some sms ->
-  (forall m, In m l -> mode_valid m) -> (forall cm, In cm cms -> mode_okb (aut cm) = true) ->
+  (forall m, In m l -> mode_valid m) ->
   forall ops st, run_ops (impl_scanner tbl cms) st ops = run_ops (spec_scanner tbl sms) st ops.
 Proof. exact compiled_scanner_is_specification. Qed.
 Print Assumptions C01_compiled_scanner_is_specification.
